@@ -154,25 +154,35 @@ pub fn run_csv_writer(files: &[(String, String)], o: &RunOpts, full: bool, costs
 
 /// `--csv-output-dir` as the binary does it: CsvWriter over a scratch directory; returns (file name, content) pairs and the error stream.
 pub fn run_csv_dir(files: &[(String, String)], o: &RunOpts) -> Result<(Vec<(String, String)>, String), RunErr> {
-    reset_globals(far_today());
+    run_csv_dir_runs(&[(files, false, false)], o)
+}
+
+/// The real `--csv-output-dir` front end, run once per entry of `runs` (files, --print-full-values, --total-costs) into ONE directory,
+/// as a user re-running the tool does; returns the directory's files after the last run and the last run's error stream.
+pub fn run_csv_dir_runs(runs: &[(&[(String, String)], bool, bool)], o: &RunOpts) -> Result<(Vec<(String, String)>, String), RunErr> {
     static N: std::sync::atomic::AtomicU64 = std::sync::atomic::AtomicU64::new(0);
     let base = if std::path::Path::new("/dev/shm").is_dir() { std::path::PathBuf::from("/dev/shm") } else { std::env::temp_dir() };
     let dir = base.join(format!("acbverif-csvdir-{}-{}", std::process::id(), N.fetch_add(1, std::sync::atomic::Ordering::Relaxed)));
     let _ = std::fs::remove_dir_all(&dir);
-    let (eh, ebuf) = WriteHandle::string_buff_write_handle();
-    let r = guard(|| -> Result<_, RunErr> {
-        let init = init_status(o).map_err(RunErr::BadInit)?;
-        let po = parse_opts(o).map_err(RunErr::BadInit)?;
-        let mut w = acb::app::outfmt::csv::CsvWriter::new_to_output_dir(&dir.display().to_string()).map_err(|e| RunErr::BadInit(format!("scratch directory: {e}")))?;
-        let wr: &mut dyn AcbWriter = &mut w;
-        Ok(async_std::task::block_on(run_acb_app_to_writer(wr, readers(files), init, &po, false, false, loader_for(o), eh)))
-    });
+    let mut err = String::new();
+    for (files, full, costs) in runs {
+        reset_globals(far_today());
+        let (eh, ebuf) = WriteHandle::string_buff_write_handle();
+        let r = guard(|| -> Result<_, RunErr> {
+            let init = init_status(o).map_err(RunErr::BadInit)?;
+            let po = parse_opts(o).map_err(RunErr::BadInit)?;
+            let mut w = acb::app::outfmt::csv::CsvWriter::new_to_output_dir(&dir.display().to_string()).map_err(|e| RunErr::BadInit(format!("scratch directory: {e}")))?;
+            let wr: &mut dyn AcbWriter = &mut w;
+            Ok(async_std::task::block_on(run_acb_app_to_writer(wr, readers(files), init, &po, *full, *costs, loader_for(o), eh)))
+        });
+        err = ebuf.borrow().as_str().to_string();
+        match r { Err(p) => { let _ = std::fs::remove_dir_all(&dir); return Err(RunErr::Panic(p)); } Ok(Err(e)) => { let _ = std::fs::remove_dir_all(&dir); return Err(e); } Ok(Ok(_)) => {} }
+    }
     let mut out = vec![];
     if let Ok(rd) = std::fs::read_dir(&dir) { for e in rd.flatten() { if let Ok(t) = std::fs::read_to_string(e.path()) { out.push((e.file_name().to_string_lossy().to_string(), t)); } } }
     out.sort();
     let _ = std::fs::remove_dir_all(&dir);
-    let err = ebuf.borrow().as_str().to_string();
-    match r { Err(p) => Err(RunErr::Panic(p)), Ok(Err(e)) => Err(e), Ok(Ok(_)) => Ok((out, err)) }
+    Ok((out, err))
 }
 
 pub struct SummaryOut { pub csv: String, pub n_rows: usize, pub warnings: Vec<String> }
